@@ -44,12 +44,17 @@ def select_cases(behs, seed, quick):
             alt2.append(b)
         else:
             three.append(b)
-    keep += rnd.sample(alt2, min(300, len(alt2))) + rnd.sample(three, min(400, len(three)))
+    keep += rnd.sample(alt2, min(60, len(alt2))) + rnd.sample(three, min(100, len(three)))
     return keep
 
 
+_BIN = {}
+
+
 def run_driver(ctx, beh_path, out_path, n_random, params, only=None, dupreps=None):
-    binp = core.go_build(DRIVER)
+    if "bin" not in _BIN:
+        _BIN["bin"] = core.go_build(DRIVER)
+    binp = _BIN["bin"]
     env = core.goenv()
     env.update({"VERIF_BEH": beh_path, "VERIF_OUT": out_path, "VERIF_SEED": str(ctx.seed), "VERIF_N": str(n_random),
                 "VERIF_TIER": ctx.tier, "VERIF_C27_PARAMS": params})
@@ -123,7 +128,7 @@ def classify(ctx, lines, tag, strict=False):
 def run(ctx):
     quick = ctx.quick
     # ---- design leg: the loop of resolve() refines P_Config!Allowed; reading checks of P_Config
-    for cfg, to in ((("MC_I_Config_quick.cfg", 600), ("MC_I_Config_quick3.cfg", 600)) if quick else
+    for cfg, to in ((("MC_I_Config_quick.cfg", 600),) if quick else
                     (("MC_I_Config.cfg", 3000), ("MC_I_Config_all6.cfg", 3000))):
         r = core.design_check(SPEC, "I_Config", cfg, workers=4, timeout=to, allow_zero=("SkipShadowedLate",), heap="4g")
         ctx.add_design(r)
@@ -145,18 +150,19 @@ def run(ctx):
         ctx.cov["states"] += g.distinct
         ctx.cov["transitions"] += g.generated
         ctx.notes["behaviour_generator"] = {"module": "Gen_Config", "cases_generated": len(g.behaviours), "cases_used": len(behs)}
-        params, n_random = ("reps", 300) if quick else ("all", 4000)
+        params, n_random = ("reps", 200) if quick else ("all", 4000)
         log("generated %d cases, using %d" % (len(g.behaviours), len(behs)))
     json.dump(behs, open(beh_path, "w"))
     ctx.sample({"case": behs[min(len(behs) - 1, 7)]})
 
     # ---- drive the real code
     trace_path = os.path.join(ctx.work, "trace.ndjson")
-    dupreps = (32, 3) if quick else (48, 6)
+    dupreps = (12, 2) if quick else (48, 6)
     summary = run_driver(ctx, beh_path, trace_path, n_random, params, only=only, dupreps=dupreps)
     ctx.notes["driver"] = summary
     traces = read_groups(trace_path)
     by_t = {tr["t"]: tr for tr in traces}
+    glen_of = {(tr["t"], g[0]): len(g[1]) for tr in traces for g in tr["groups"]}
     ngroups = sum(len(tr["groups"]) for tr in traces)
     nlines = sum(1 + sum(len(g[1]) for g in tr["groups"]) for tr in traces)
     log("driver: %d parameters, %d (parameter, case) groups, %d trace lines" % (len(traces), ngroups, nlines))
@@ -164,8 +170,11 @@ def run(ctx):
     # ---- leg B: TLC classifies every run
     rejects = {}          # signature -> list of (t, case, number of lines in the group)
     tlc_states, tlc_wall = 0, 0.0
-    for i, lines in enumerate(chunks_of(traces, 60000)):
-        tr, rej, p = classify(ctx, lines, "c%d" % i)
+    chunks = chunks_of(traces, 12000 if quick else 40000)
+    from concurrent.futures import ThreadPoolExecutor
+    with ThreadPoolExecutor(max_workers=3) as ex:          # three single-worker TLC processes
+        results = list(ex.map(lambda ic: classify(ctx, ic[1], "c%d" % ic[0]), enumerate(chunks)))
+    for lines, (tr, rej, p) in zip(chunks, results):
         tlc_states += tr.states
         tlc_wall += tr.wall
         if not tr.accepted:
@@ -176,8 +185,7 @@ def run(ctx):
             core.report(ctx, "no-match", "trace line not accepted by T_Config: " + bad[:300], rdir)
             return
         for t, c, sig in rej:
-            glen = next(len(g[1]) for g in by_t[t]["groups"] if g[0] == c)
-            rejects.setdefault(sig, []).append((t, c, glen))
+            rejects.setdefault(sig, []).append((t, c, glen_of[(t, c)]))
     log("TLC classified %d lines: %d deviating runs, signatures: %s" %
         (nlines, sum(len(v) for v in rejects.values()), {k: len(v) for k, v in rejects.items()}))
 
@@ -185,39 +193,55 @@ def run(ctx):
     for sig in sorted(rejects):
         if sig.startswith("harness:"):
             raise HarnessError("trace spec could not classify driver input: %s %s" % (sig, rejects[sig][:3]))
-        cands = sorted(set(rejects[sig]), key=lambda x: (-x[2], x[0], x[1]))[:3]
-        confirmed = None
-        for t, c, _ in cands:
-            param = by_t[t]["param"]
-            one_beh = os.path.join(ctx.work, "beh-one.json")
-            is_random = c >= len(behs)
-            rerun = os.path.join(ctx.work, "trace-rerun.ndjson")
-            if is_random:
-                run_driver(ctx, beh_path, rerun, n_random, params, only=[[param, c]], dupreps=dupreps)
-            else:
-                json.dump([behs[c]], open(one_beh, "w"))
-                run_driver(ctx, one_beh, rerun, 0, "all", only=[[param, 0]], dupreps=dupreps)
-            again = read_groups(rerun)
-            if not again or not again[0]["groups"]:
+    cands = {sig: sorted(set(v), key=lambda x: (-x[2], x[0], x[1]))[:3] for sig, v in rejects.items()}
+    confirmed = {}
+    for attempt in range(3):
+        todo = [(sig, cands[sig][attempt]) for sig in sorted(cands) if sig not in confirmed and attempt < len(cands[sig])]
+        if not todo:
+            break
+        # one re-execution for all pending signatures: generated cases go into a fresh behaviours file,
+        # seeded random histories are re-run by index
+        re_behs, only2 = [], []
+        for sig, (t, c, _) in todo:
+            if c >= len(behs):
                 continue
-            lines2 = [again[0]["reset"]] + again[0]["groups"][0][1]
-            tr2, rej2, p2 = classify(ctx, lines2, "confirm")
-            tr3, _, _ = classify(ctx, lines2, "strict", strict=True)
-            if tr2.accepted and any(s == sig for _, _, s in rej2) and not tr3.accepted:
-                confirmed = (t, c, param, p2, is_random)
-                break
-        if confirmed is None:
-            raise HarnessError("deviation %r did not reproduce on re-execution (candidates %s)" % (sig, cands))
-        t, c, param, p2, is_random = confirmed
+            only2.append([by_t[t]["param"], len(re_behs)])
+            re_behs.append(behs[c])
+        got = {}          # (param, original case index) -> lines of the re-executed group
+        rerun = os.path.join(ctx.work, "trace-rerun.ndjson")
+        if re_behs:
+            rb = os.path.join(ctx.work, "beh-rerun.json")
+            json.dump(re_behs, open(rb, "w"))
+            run_driver(ctx, rb, rerun, 0, "all", only=only2, dupreps=dupreps)
+            back = {(p_, i): c for (p_, i), c in zip([tuple(x) for x in only2], [x[1][1] for x in todo if x[1][1] < len(behs)])}
+            for tr in read_groups(rerun):
+                for ci, lines in tr["groups"]:
+                    got[(tr["param"], back[(tr["param"], ci)])] = [tr["reset"]] + lines
+        rnd_todo = [[by_t[t]["param"], c] for sig, (t, c, _) in todo if c >= len(behs)]
+        if rnd_todo:
+            run_driver(ctx, beh_path, rerun, n_random, params, only=rnd_todo, dupreps=dupreps)
+            for tr in read_groups(rerun):
+                for ci, lines in tr["groups"]:
+                    got[(tr["param"], ci)] = [tr["reset"]] + lines
+        for sig, (t, c, _) in todo:
+            lines2 = got.get((by_t[t]["param"], c))
+            if not lines2:
+                continue
+            tr2, rej2, p2 = classify(ctx, lines2, "confirm-%d" % len(confirmed))
+            if tr2.accepted and any(s == sig for _, _, s in rej2):
+                confirmed[sig] = (t, c, by_t[t]["param"], p2, c >= len(behs))
+    for sig in sorted(rejects):
+        if sig not in confirmed:
+            raise HarnessError("deviation %r did not reproduce on re-execution (candidates %s)" % (sig, cands[sig]))
+        t, c, param, p2, is_random = confirmed[sig]
         grp = next(g for g in by_t[t]["groups"] if g[0] == c)
         first = os.path.join(ctx.work, "rejected-first.ndjson")
         open(first, "w").write("\n".join([by_t[t]["reset"]] + grp[1]) + "\n")
         one_beh = os.path.join(ctx.work, "beh-one.json")
-        if is_random:
-            json.dump([], open(one_beh, "w"))
+        json.dump([] if is_random else [behs[c]], open(one_beh, "w"))
         name = re.sub(r"[^A-Za-z0-9]+", "-", sig)[:60]
         rdir = core.save_replay(ctx, name, files={"trace.ndjson": first, "trace-reexecuted.ndjson": p2, "behaviours.json": one_beh,
-                                                  "tlc.out": os.path.join(ctx.work, "tlc-T_Config-T_Config.cfg.out")},
+                                                  "tlc.out": os.path.join(ctx.work, "tlc-T_Config-T_Config_all.cfg.out")},
                                 meta={"property": ctx.id, "signature": sig, "param": param, "case_index": c,
                                       "case": None if is_random else behs[c], "seed": ctx.seed, "tier": ctx.tier,
                                       "occurrences": len(rejects[sig]),
